@@ -290,7 +290,7 @@ func newPair(cfg pairCfg) (p *pair, err error) {
 
 	clientAck := *ack
 	d := &uacp.Dialer{ClientACK: &clientAck}
-	dctx, dcancel := context.WithTimeout(p.ctx, watchdog)
+	dctx, dcancel := context.WithTimeout(p.ctx, watchdog/4)
 	defer dcancel()
 	if p.cliConn, err = d.Dial(dctx, "opc.tcp://"+p.px.addr()); err != nil {
 		return p, fmt.Errorf("client dial/hello: %v", err)
@@ -353,8 +353,23 @@ func (p *pair) open() error {
 	return p.cli.Open(ctx)
 }
 
+// errInfra marks failures of the scaffolding below the secure channel (TCP
+// listen/connect, Hello/Acknowledge): they are retried and never judged.
+type errInfra struct{ error }
+
+// newPairRetry tolerates a transient failure of the loopback plumbing (seen
+// once in ~10^4 pairs on an overloaded machine: a connect that never completes).
+func newPairRetry(cfg pairCfg) (p *pair, err error) {
+	for attempt := 0; attempt < 4; attempt++ {
+		if p, err = newPair(cfg); err == nil {
+			return p, nil
+		}
+	}
+	return nil, errInfra{err}
+}
+
 func openPair(cfg pairCfg) (*pair, error) {
-	p, err := newPair(cfg)
+	p, err := newPairRetry(cfg)
 	if err != nil {
 		return nil, err
 	}
